@@ -554,6 +554,10 @@ func (in *Interp) model() ([]ReplayItem, bool) {
 	return items, ok
 }
 
+// maxVioPerKey bounds the counterexamples kept per (assertion, site): several are kept because one that
+// depends on the value of an idealised primitive does not replay natively while another may.
+const maxVioPerKey = 8
+
 func (in *Interp) violation(label, msg string, _ bool, siteOpt ...string) {
 	site := in.where()
 	if len(siteOpt) > 0 && siteOpt[0] != "" {
@@ -580,7 +584,7 @@ func (in *Interp) violation(label, msg string, _ bool, siteOpt ...string) {
 	n := ex.vioSeen[key]
 	ex.vioSeen[key]++
 	ex.mu.Unlock()
-	if n >= 2 {
+	if n >= maxVioPerKey {
 		return
 	}
 	items, ok := in.model()
